@@ -105,8 +105,18 @@ def _run_one(args):
         except Exception as e:  # pragma: no cover
             return mut["id"], "error", [], [f"{type(e).__name__}: {e}"]
         return mut["id"], "ran", ctx.keys(), errors
+    overlay0 = {}
+    if mut.get("base"):
+        # a behaviour-preserving refactoring from the benign corpus is applied first; the edit then breaks the refactored code
+        root = os.path.dirname(os.path.dirname(os.path.dirname(os.path.abspath(__file__))))
+        try:
+            overlay0 = apply_unified_diff(open(os.path.join(root, "benign", mut["base"], "patch.diff")).read(), base.text)
+        except OSError:
+            overlay0 = None
+        if overlay0 is None:
+            return mut["id"], "stale", [], []
     try:
-        text = base.text(mut["file"])
+        text = overlay0.get(mut["file"]) or base.text(mut["file"])
     except AnalysisError:
         return mut["id"], "stale", [], []
     edits = mut.get("edits") or [(mut["old"], mut["new"])]
@@ -115,7 +125,9 @@ def _run_one(args):
         if text2 is None:
             return mut["id"], "stale", [], []
         text = text2
-    model = Model(overlay={mut["file"]: text})
+    ov = dict(overlay0)
+    ov[mut["file"]] = text
+    model = Model(overlay=ov)
     try:
         mod, ctx, errors = runner.run_rules(prop, model)
     except Exception as e:  # pragma: no cover
